@@ -92,7 +92,7 @@ func init() {
 		assumptions: []string{"sha256"},
 	})
 	register("C16", &propDef{
-		patterns: []string{"./embedded/store", "./embedded/appendable/...", "./embedded/tbtree", "./embedded/sql", "./pkg/api/schema", "./pkg/pgsql/server/...", "./pkg/stream", "./pkg/database", "./embedded/ahtree"},
+		patterns: []string{"./embedded/store", "./embedded/appendable/...", "./embedded/tbtree", "./embedded/sql", "./pkg/api/schema", "./pkg/pgsql/server/...", "./pkg/stream", "./pkg/database", "./embedded/ahtree", "./pkg/client/...", "./pkg/verification"},
 		run:      c16,
 		explanation: "Decides, for a frozen list of decoders of untrusted or possibly corrupted bytes, that every slice expression, index, fixed-size big-endian read and length-driven allocation is within bounds on every path: each obligation (a linear inequality over SSA values and slice lengths) is discharged from the branch conditions that dominate the access (plus stated callee contracts, themselves checked on every implementation, and an induction step over loop cursors); explicit panics in decoders are violations. It does NOT decide termination/time bounds nor the generated SQL parser's recursion depth.",
 		assumptions: []string{"integer overflow of cursor arithmetic is out of scope (lengths are bounded by buffer sizes)"},
